@@ -344,6 +344,24 @@ func init() {
 		o.Site(rets[0], "GroupKey = "+v)
 		o.Check(v == `fmt.Sprintf("%s:%s", [recv.routeKey, recv.labels])`, "gk-shape", "the group key must be routeKey:labels, is "+v, rets[0])
 		rk := o.Fn("(*am/dispatch.Route).Key")
+		// Key may hand one builder down a recursive worker (worker(node, builder) writes the ancestors' part, then
+		// the node's own); the rule is then stated over the worker, and Key must return what that builder holds
+		var worker *ssa.Function
+		for _, in := range AllInstrs(rk) {
+			if c, ok := in.(*ssa.Call); ok {
+				if f := c.Call.StaticCallee(); f != nil && isNewFunc(f) && len(e.Calls(f, fnName(f))) > 0 && len(f.Params) == 2 && len(c.Call.Args) == 2 {
+					worker = f
+					o.Site(c, "Route.Key delegates to "+fnName(f))
+					o.Check(e.Arg(c, 0) == "recv", "rk-shape", "the key worker must start at the route Key is called on, starts at "+e.Arg(c, 0), c)
+					for _, ret := range (&Walk{Fn: rk}).FromEntry().Returns() {
+						o.Check(e.X(rk, ret.Results[0]) == "(*strings.Builder).String("+e.Arg(c, 1)+")", "rk-shape", "Key must return what its worker wrote, returns "+clip(e.X(rk, ret.Results[0])), ret)
+					}
+				}
+			}
+		}
+		if worker != nil {
+			rk = worker
+		}
 		// The key is made of the matchers of the routes on the path from the root to this route and '/'
 		// separators, and of nothing else — by recursion into the parent or by walking the parent links.
 		var wrote []string
@@ -380,6 +398,17 @@ func init() {
 			cn := calleeName(&c.Call)
 			bad := strings.HasPrefix(cn, "time.") || strings.HasPrefix(cn, "math/rand") || strings.HasPrefix(cn, "os.") || strings.HasPrefix(cn, "github.com/google/uuid")
 			o.Check(!bad, "rk-impure", "Route.Key calls "+cn, in)
+			if worker != nil && cn == fnName(worker) {
+				parentSeen = true
+				o.Check(e.Arg(c, 0) == "recv.parent" && e.Arg(c, 1) == "p0", "rk-shape", "the recursion must go to the parent with the same builder, goes to "+e.X(rk, c), c)
+				o.Guarded(c, "rk-parent-guard", "recursing into the parent", L("(recv.parent == nil)", false))
+				o.Forced(rk, "rk-parent-forced", "a route with a parent must include the parent's key", IsInstr(c), L("(recv.parent == nil)", false))
+				// ancestors first: nothing of the node itself is written before the parent's part
+				for _, w := range e.Calls(rk, "(*strings.Builder).WriteString") {
+					o.Check(!(&Walk{Fn: rk}).After(w).Has(c), "rk-shape", "the node's own part is written before its ancestors'", w)
+				}
+				continue
+			}
 			switch cn {
 			case "(*strings.Builder).WriteRune", "(*strings.Builder).WriteByte":
 				wrote = append(wrote, "sep:"+e.X(rk, c.Call.Args[1]))
